@@ -703,7 +703,7 @@ func (x *runB) opKill(ports []string, clear bool) (*core.Violation, string) {
 	if pv != nil && strings.HasPrefix(pv.Sig, "panic|") {
 		pv.Sig = fmt.Sprintf("%s|socks-clear|proxies=%s", pv.Sig, nClass(len(ports)))
 		// repair: release what the panicking command left locked, kill the rest one by one
-		unstick(&x.f.a.SocksSvrMtx)
+		unstickNow(&x.f.a.SocksSvrMtx)
 		for _, p := range x.f.proxyPorts() {
 			x.f.operator("socks kill", p)
 		}
